@@ -3,6 +3,7 @@
 //! layout as the Coq model's `Exec/*` drivers.
 use std::io::{self, BufRead, Write};
 
+mod action;
 mod common;
 mod window;
 
@@ -22,6 +23,7 @@ fn main() {
 		let suite = toks.next_str().to_string();
 		let res: Vec<i128> = match suite.as_str() {
 			"window" => window::run(&mut toks),
+			"action" => action::run(&mut toks),
 			other => panic!("unknown suite {other}"),
 		};
 		write!(out, "{id}").unwrap();
